@@ -53,16 +53,22 @@ theorem spec_rvalueValue (u d cg v) : Spec t (rvalueValue u d cg v) := by
   unfold rvalueValue
   spec_steps [spec_deliverConst _ _ _, spec_deliverSrc _ _ _]
 
+/-- at a token on which `_current_literal()` left a message, `_rvalue` fails with its own -/
+theorem rvalueValue_bad (u : Bool) (d : Dest) (cg : CG) {st : St} (h : BadLit st) :
+    ∃ msg, rvalueValue u d cg none st = .fail (st.addError msg) := by
+  unfold rvalueValue
+  cases u
+  · rcases h with h | h <;>
+      (simp [getSt_bind, h, tokenError, triggerError]; exact ⟨_, rfl⟩)
+  · simp [triggerError]; exact ⟨_, rfl⟩
+
 theorem spec_rvalueSimple (dest : Dest) (cg : CG) : Spec t (rvalueSimple dest cg) := by
   unfold rvalueSimple
   refine Spec.bind spec_getSt (fun s => ?_)
   refine Spec.bind (by spec_steps) (fun _ => ?_)
   refine spec_bind_currentConstant (fun v => spec_rvalueValue _ _ _ v) ?_
-  intro st hst hty
-  unfold rvalueValue
-  by_cases hu : s.cur.isMark "-" = true
-  · simp [hu, triggerError]; exact ⟨_, rfl⟩
-  · simp [hu, getSt_bind, hty, tokenError, triggerError]; exact ⟨_, rfl⟩
+  intro st _ hty
+  exact rvalueValue_bad _ _ _ hty
 
 /-! ## The rvalue family -/
 
@@ -305,27 +311,25 @@ theorem rvalueSimple_cases {d : Dest} {cg : CG} {st st' : St} {b : Bool} (h : In
   · rw [if_pos hu] at he
     obtain ⟨_, s1, h1, h2⟩ := bind_ok_inv he
     have hi1 := ok_of_spec (t := false) spec_skipToken h h1
-    rcases currentConstant_cases hi1.1 with ⟨v, hv, hty⟩ | ⟨hty, hv⟩ | ⟨_, hv⟩
+    rcases currentConstant_cases hi1.1 with ⟨v, hv, hty⟩ | ⟨hty, msg, hv⟩
     · rw [bind_ok hv] at h2
       rcases rvalueValue_cases hi1.1 h2 (isSome_ne_eof hty) with ⟨hb, hl⟩ | ⟨_, _, _, hf⟩
       · exact .inl ⟨hb, by omega⟩
       · rw [hu] at hf; cases hf
     · rw [bind_ok hv] at h2
-      rw [hu] at h2
-      simp [rvalueValue, triggerError] at h2
-    · rw [bind_run, hv] at h2; cases h2
+      obtain ⟨m2, hm2⟩ := rvalueValue_bad (st.cur.isMark "-") d cg (st := s1.addError msg) hty
+      rw [hm2] at h2; cases h2
   · rw [if_neg hu] at he
     rw [bind_ok (pure_run () st)] at he
     have hu' : st.cur.isMark "-" = false := by simpa using hu
-    rcases currentConstant_cases h with ⟨v, hv, hty⟩ | ⟨hty, hv⟩ | ⟨_, hv⟩
+    rcases currentConstant_cases h with ⟨v, hv, hty⟩ | ⟨hty, msg, hv⟩
     · rw [bind_ok hv] at he
       rcases rvalueValue_cases h he (isSome_ne_eof hty) with ⟨hb, hl⟩ | ⟨hb, hs, hn, _⟩
       · exact .inl ⟨hb, hl⟩
       · exact .inr ⟨hb, hs, hn⟩
-    · rw [bind_ok hv, hu'] at he
-      have : (st.addError (tpMsg st)).cur.ty = .timePattern := hty
-      simp [rvalueValue, getSt_bind, this, tokenError, triggerError] at he
-    · rw [bind_run, hv] at he; cases he
+    · rw [bind_ok hv] at he
+      obtain ⟨m2, hm2⟩ := rvalueValue_bad (st.cur.isMark "-") d cg (st := st.addError msg) hty
+      rw [hm2] at he; cases he
 
 
 theorem isMark_ne_eof {t : Tok} {m : String} (h : t.isMark m = true) : t.ty ≠ .eof := by
